@@ -7,8 +7,9 @@ import Nstd.Future.Ring
   has finished or is blocked).  Schedules are lists of thread ids; every interleaving of the real
   code under sequentially consistent atomics is a schedule of this system.
 
-  The model follows the REPAIRED `FastSignal::reset` (fixes/future/01-*.patch) when `s.repaired`
-  is true and the original code otherwise (used for the negation witness of D17).
+  With `cfg.repaired = true` the model follows the REPAIRED code (fixes/future/000{1,2,3}-*.patch, fixes/sync/0001-*.patch:
+  `FastSignal::reset` re-signals; the retire path of `run` sets the enqueued signal; a terminating
+  worker sets it before leaving; `Signal::set` broadcasts before it unlocks); with `false` the original code (negation witnesses of the defects).
 
   Simulated POSIX layer (assumed semantics, identical to harness/future/sched.cpp): mutex
   (owner), condition variable (wait set; `broadcast` wakes all current waiters; budgeted spurious
@@ -28,6 +29,7 @@ structure SigSt where
   signaled : Bool := false
   waiters : List Tid := []       -- in the wait set of the condition variable, not yet woken
   live : Bool := true            -- false after ~Signal
+  gen : Nat := 0                 -- incarnation of the object at this address (a destroyed and re-created Signal is a new object)
 
 structure Ctx where
   id : Nat                       -- identity of the ThreadContext object (its address in the PoolList)
@@ -53,6 +55,8 @@ structure Fut where
   state : Nat := 0               -- idleState 0, runningState 1, finishedState 2, abortedState 3
   joinable : Bool := false
   result : Option Int := none    -- `result` member of Future<A>; none = never stored
+  curCall : Option Nat := none   -- ghost: the call record of the latest start (set when startProc arms the future)
+  abortReq : Bool := false       -- ghost: abort() was called since the latest start armed the future
 
 structure CallRec where
   a : Int
@@ -65,7 +69,7 @@ inductive ClientOp where
 
 inductive Frame where
   -- Signal::set / reset / wait on signal σ
-  | sSetLock (σ : Nat) | sSetStore (σ : Nat) | sSetUnlock (σ : Nat) | sSetBcast (σ : Nat)
+  | sSetLock (σ : Nat) | sSetStore (σ : Nat) | sSetUnlock (σ : Nat) | sSetBcast (σ : Nat) (gen : Nat)
   | sRstLock (σ : Nat) | sRstStore (σ : Nat) | sRstUnlock (σ : Nat)
   | sWaitLock (σ : Nat) | sWaitChk (σ : Nat) | sWaitUnlock (σ : Nat) | sWaitCwait (σ : Nat)
   | sWaitCwake (σ : Nat) | sWaitRelock (σ : Nat)
@@ -99,6 +103,7 @@ structure Thread where
   finished : Bool := false
   retB : Bool := false                   -- result of the last push/pop
   retJob : Job := none                   -- job delivered by the last successful pop
+  jobTicket : Nat := 0                   -- ghost: ring ticket of the last successful pop
   script : List ClientOp := []
   used : List Nat := []                  -- futures this client has started (destroyed at its end)
   isWorker : Bool := false
@@ -124,12 +129,16 @@ structure State where
   futs : Nat → Fut
   calls : Nat → Option CallRec
   nextCall : Nat
+  clientTids : List Tid           -- threads created by the main thread, in creation order
   spurious : Nat
   clockCalls : Nat
   -- ghost
   execCount : Nat → Nat           -- how often the body of call c ran
   execArgs : Nat → Option (Int × Int)
   freeCount : Nat → Nat           -- how often record c was deleted
+  everCalls : Nat → Option CallRec  -- the record as allocated by start (never erased)
+  completed : Nat → Bool          -- the worker has published the state of call c (after body and result store)
+  dispatched : List Nat           -- ring tickets whose job a worker has taken to dispatch, in dispatch order
   fault : Option String           -- the model detected an illegal access (raw slot read, freed record, destroyed signal ...)
 
 def futName (f : Nat) : String := if f < 8 then s!"f{f}" else s!"g{f - 8}"
@@ -144,15 +153,16 @@ def State.init (cfg : Config) : State :=
   { cfg := cfg,
     threads := fun t => if t = 0 then some { stack := [Frame.mInit] } else none,
     nthreads := 1, sigs := fun _ => {}, pool := none, tp := false, tplock := 0,
-    futs := fun _ => {}, calls := fun _ => none, nextCall := 0, spurious := cfg.spurious, clockCalls := 0,
-    execCount := fun _ => 0, execArgs := fun _ => none, freeCount := fun _ => 0, fault := none }
+    futs := fun _ => {}, calls := fun _ => none, nextCall := 0, clientTids := [], spurious := cfg.spurious, clockCalls := 0,
+    execCount := fun _ => 0, execArgs := fun _ => none, freeCount := fun _ => 0, everCalls := fun _ => none,
+    completed := fun _ => false, dispatched := [], fault := none }
 
 /-- virtual clock: `Time::ticks()` in ms; every reading advances it by `tick` -/
 def clockMs (s : State) : Nat := 5000 + s.clockCalls * s.cfg.tick
 
 /-- is the next action of this frame a scheduling point of the controlled scheduler (POSIX call / atomic op)? -/
 def Frame.isSync : Frame → Bool
-  | .sSetLock _ | .sSetUnlock _ | .sSetBcast _ | .sRstLock _ | .sRstUnlock _ => true
+  | .sSetLock _ | .sSetUnlock _ | .sSetBcast _ _ | .sRstLock _ | .sRstUnlock _ => true
   | .sWaitLock _ | .sWaitUnlock _ | .sWaitCwait _ | .sWaitCwake _ | .sWaitRelock _ => true
   | .fSet _ | .fRst _ => true
   | .ring (.pushCas _ _) | .ring (.pushPub _ _) | .ring (.popCas _) | .ring (.popRel _ _) => true
@@ -171,8 +181,10 @@ def blockedFrame (s : State) (t : Tid) : Frame → Bool
   | .cleanJoin _ w => match s.threads w with
       | some th => !th.finished
       | none => false
-  | .mJoin i => match s.threads (i + 1) with
-      | some th => !th.finished
+  | .mJoin i => match s.clientTids[i]? with
+      | some w => match s.threads w with
+        | some th => !th.finished
+        | none => false
       | none => false
   | .dJoin i => match s.pool with
       | some p => match p.ctxs[i]? with
@@ -226,12 +238,14 @@ def stepFrame (s : State) (t : Tid) (th : Thread) (fr : Frame) : State × List S
   match fr with
   -- ---------------- Signal::set
   | .sSetLock σ => (go (setSig s σ { s.sigs σ with owner := some t }) [.sSetStore σ], [opLine "lock" s!"{sigName σ}.m" 0])
-  | .sSetStore σ => (go (setSig s σ { s.sigs σ with signaled := true }) [.sSetUnlock σ], [])
-  | .sSetUnlock σ => (go (setSig s σ { s.sigs σ with owner := none }) [.sSetBcast σ], [opLine "unlock" s!"{sigName σ}.m" 0])
-  | .sSetBcast σ =>
+  | .sSetStore σ =>
+      (go (setSig s σ { s.sigs σ with signaled := true }) (if s.cfg.repaired then [.sSetBcast σ (s.sigs σ).gen] else [.sSetUnlock σ]), [])
+  | .sSetUnlock σ =>
+      (go (setSig s σ { s.sigs σ with owner := none }) (if s.cfg.repaired then [] else [.sSetBcast σ (s.sigs σ).gen]), [opLine "unlock" s!"{sigName σ}.m" 0])
+  | .sSetBcast σ gen =>
       let g := s.sigs σ
-      let x := if g.live then [] else [s!"X broadcast-on-destroyed-cond {sigName σ}.c by={t}"]
-      (ret (setSig s σ { g with waiters := [] }) th, x ++ [opLine "bcast" s!"{sigName σ}.c" g.waiters.length])
+      let x := if g.live ∧ g.gen = gen then [] else [s!"X broadcast-on-destroyed-cond {sigName σ}.c by={t}"]
+      (go (setSig s σ { g with waiters := [] }) (if s.cfg.repaired then [.sSetUnlock σ] else []), x ++ [opLine "bcast" s!"{sigName σ}.c" g.waiters.length])
   -- ---------------- Signal::reset
   | .sRstLock σ => (go (setSig s σ { s.sigs σ with owner := some t }) [.sRstStore σ], [opLine "lock" s!"{sigName σ}.m" 0])
   | .sRstStore σ => (go (setSig s σ { s.sigs σ with signaled := false }) [.sRstUnlock σ], [])
@@ -282,7 +296,8 @@ def stepFrame (s : State) (t : Tid) (th : Thread) (fr : Frame) : State × List S
         | .cont pc' => (setThread s' t (th.cont [.ring pc']), line)
         | .pushed ok => (setThread s' t ({ th with retB := ok }.cont []), line)
         | .popped none => (setThread s' t ({ th with retB := false }.cont []), line)
-        | .popped (some (some j)) => (setThread s' t ({ th with retB := true, retJob := j }.cont []), line)
+        | .popped (some (some j)) =>
+          (setThread s' t ({ th with retB := true, retJob := j, jobTicket := (match pc with | .popRel h _ => h | _ => 0) }.cont []), line)
         | .popped (some none) => (withFault (setThread s' t ({ th with retB := true, retJob := none }.cont [])) "pop read a raw slot", line)
   -- ---------------- ThreadPool::run
   | .runStart j => (go s [.ring (.pushRead j), .runChk1 j], [])
@@ -367,7 +382,9 @@ def stepFrame (s : State) (t : Tid) (th : Thread) (fr : Frame) : State × List S
   | .runRetAfter => match s.pool with
       | none => (withFault s "no pool", [])
       | some p =>
-        if th.retB then (go (setPool s { p with threadCount := p.threadCount - 1 }) [.cleanAt 0, .runRetUnlock], [])
+        if th.retB then
+          (go (setPool s { p with threadCount := p.threadCount - 1 })
+            (if s.cfg.repaired then [.fSet 0, .cleanAt 0, .runRetUnlock] else [.cleanAt 0, .runRetUnlock]), [])
         else (go s [.cleanAt 0, .runRetUnlock], [])
   | .runRetUnlock => match s.pool with
       | none => (withFault s "no pool", [])
@@ -378,9 +395,11 @@ def stepFrame (s : State) (t : Tid) (th : Thread) (fr : Frame) : State × List S
   | .wPop2 => (go s [.ring .popRead, .wChk2], [])
   | .wChk2 => if th.retB then (go s [.wDeq], []) else (go s [.fWait 0, .wPop1], [])
   | .wDeq => (go s [.fSet 1, .wDispatch], [])
-  | .wDispatch => match th.retJob with
-      | some c => (go s [.pCall c, .wAdd], [])
-      | none => (go s [.wTerm], [])
+  | .wDispatch =>
+      let s := { s with dispatched := s.dispatched ++ [th.jobTicket] }
+      match th.retJob with
+      | some c => (setThread s t (th.cont [.pCall c, .wAdd]), [])
+      | none => (setThread s t (th.cont (if s.cfg.repaired then [.fSet 0, .wTerm] else [.wTerm])), [])
   | .wAdd => match s.pool with
       | none => (withFault s "no pool", [])
       | some p => (go (setPool s { p with processed := p.processed + 1 }) [.wPop1], [opLine "add" "processed" (p.processed + 1)])
@@ -410,7 +429,8 @@ def stepFrame (s : State) (t : Tid) (th : Thread) (fr : Frame) : State × List S
       | none => (withFault s "call record used after delete", [])
       | some r =>
         let f := s.futs r.fut
-        (go (setFut s r.fut { f with state := if ab then 3 else 2 }) [.pSig c], [opLine "xchg" s!"{futName r.fut}.state" f.state])
+        (go { (setFut s r.fut { f with state := if ab then 3 else 2 }) with completed := upd s.completed c true } [.pSig c],
+          [opLine "xchg" s!"{futName r.fut}.state" f.state])
   | .pSig c => match s.calls c with
       | none => (withFault s "call record used after delete", [])
       | some r => (go s [.sSetLock (r.fut + 2), .pDelete c], [])
@@ -426,11 +446,11 @@ def stepFrame (s : State) (t : Tid) (th : Thread) (fr : Frame) : State × List S
         match op with
         | .start f a b =>
           let c := s.nextCall
-          let s' := { s with calls := upd s.calls c (some { a := a, b := b, fut := f }), nextCall := c + 1 }
+          let s' := { s with calls := upd s.calls c (some { a := a, b := b, fut := f }), nextCall := c + 1, everCalls := upd s.everCalls c (some { a := a, b := b, fut := f }) }
           (setThread s' t ({ th with used := if th.used.contains f then th.used else th.used ++ [f] }.cont [.cRdTp c, .cStarted f a, .cNext]), [s!"E {t} rec-new {a}"])
         | .join f => (setThread s t (th.cont [.join f, .evJoined f, .cNext]), [])
         | .result f => (setThread s t (th.cont [.join f, .evResult f, .cNext]), [])
-        | .abort f => (setThread (setFut s f { s.futs f with aborting := true }) t (th.cont [.cNext]), [s!"E {t} abort {futName f}"])
+        | .abort f => (setThread (setFut s f { s.futs f with aborting := true, abortReq := true }) t (th.cont [.cNext]), [s!"E {t} abort {futName f}"])
         | .query f =>
           let x := s.futs f
           (setThread s t (th.cont [.cNext]),
@@ -450,7 +470,7 @@ def stepFrame (s : State) (t : Tid) (th : Thread) (fr : Frame) : State × List S
       | some r => (go s [.join r.fut, .cArm c], [])
   | .cArm c => match s.calls c with        -- _joinable = true; _aborting = false; threadPool->run(proc, args);
       | none => (withFault s "call record used after delete", [])
-      | some r => (go (setFut s r.fut { s.futs r.fut with joinable := true, aborting := false }) [.runStart (some c)], [])
+      | some r => (go (setFut s r.fut { s.futs r.fut with joinable := true, aborting := false, curCall := some c, abortReq := false }) [.runStart (some c)], [])
   | .cStarted f a => (ret s th, [s!"E {t} started {futName f} {a}"])
   | .join f =>
       if (s.futs f).joinable then (go s [.sWaitLock (f + 2), .sRstLock (f + 2), .joinClr f], []) else (ret s th, [])
@@ -460,7 +480,7 @@ def stepFrame (s : State) (t : Tid) (th : Thread) (fr : Frame) : State × List S
       (ret s th, [s!"E {t} result {futName f} {match (s.futs f).result with | some v => toString v | none => "unset"}"])
   | .destroyF f =>
       let (s', x) := destroySig s (f + 2) t
-      (ret { (setFut s' f {}) with sigs := upd s'.sigs (f + 2) {} } th, x ++ [s!"E {t} destroyed {futName f}"])
+      (ret { (setFut s' f {}) with sigs := upd s'.sigs (f + 2) { gen := (s.sigs (f + 2)).gen + 1 } } th, x ++ [s!"E {t} destroyed {futName f}"])
   | .cEnd k =>
       -- end of the client: its futures go out of scope in the order f0, g0, f1, g1, ...
       if k ≥ 16 then (go s [.tExit], [])
@@ -475,12 +495,12 @@ def stepFrame (s : State) (t : Tid) (th : Thread) (fr : Frame) : State × List S
       | none => (go s [if s.cfg.scripts.isEmpty then .mDel else .mJoin 0], [])
       | some sc =>
         let w := s.nthreads
-        let s' := { s with threads := upd s.threads w (some { stack := [.tStart, .cNext], script := sc }), nthreads := w + 1 }
+        let s' := { s with threads := upd s.threads w (some { stack := [.tStart, .cNext], script := sc }), nthreads := w + 1, clientTids := s.clientTids ++ [w] }
         (setThread s' t (th.cont [.mSpawned i w]), [s!"E {t} create t{w}"])
   | .mSpawned i w => (go s [.mSpawn (i + 1)], [opLine "spawned" "thread" w])
   | .mJoin i =>
       if i < s.cfg.scripts.length then
-        (go s [if i + 1 < s.cfg.scripts.length then .mJoin (i + 1) else .mDel], [opLine "join" "thread" (i + 1)])
+        (go s [if i + 1 < s.cfg.scripts.length then .mJoin (i + 1) else .mDel], [opLine "join" "thread" (s.clientTids.getD i 0)])
       else (go s [.mDel], [])
   | .mDel => match s.pool with
       | none => (go s [.tExit], [s!"E {t} clients-joined", s!"E {t} pool-deleted"])
